@@ -66,7 +66,7 @@ func leafPart(l, r string) string {
 	comp := func(s string) bool {
 		return strings.HasPrefix(s, "{") || strings.HasPrefix(s, "[") || strings.Contains(s, "#")
 	}
-	if comp(l) || comp(r) {
+	if comp(l) || comp(r) || l == "-" && r == "-" {
 		return ""
 	}
 	return strings.ReplaceAll("|exp="+l+"|got="+r, " ", "_")
@@ -175,6 +175,9 @@ func judge(pl *pool, c *Case) (*verdict, bool) {
 	}
 	if p, l, r := diffPath(expG, gotG, ""); p != "" {
 		raw, _ := generic(o.Got.value(c.K))
+		if strings.HasSuffix(p, "#len") {
+			l, r = "-", "-" // the lengths themselves are not part of the class
+		}
 		sig := c.K + ":" + pathClass(p) + leafPart(l, r)
 		if c.K == "list" && strings.Contains(p, "/status[]/") {
 			sig = "status:" + pathClass(p[strings.Index(p, "/status[]/")+9:]) + leafPart(l, r)
